@@ -16,6 +16,8 @@ type FNode struct {
 	Field string
 	Val   any // leaf value: the field's Go type, []string for "in", string for "has"
 	Kids  []*FNode
+
+	NilEmpty bool // pass an empty list value as a nil slice
 }
 
 // Build converts the model into the library's Filter value (fresh copies of
@@ -30,7 +32,14 @@ func (n *FNode) Build() *jsonapi.Filter {
 		return &jsonapi.Filter{Op: n.Op, Val: kids}
 	}
 
-	return &jsonapi.Filter{Field: n.Field, Op: n.Op, Val: Clone(n.Val)}
+	v := Clone(n.Val)
+
+	// An empty list is passed as a nil slice: both spell "no IDs".
+	if ids, ok := v.([]string); ok && len(ids) == 0 && n.NilEmpty {
+		v = []string(nil)
+	}
+
+	return &jsonapi.Filter{Field: n.Field, Op: n.Op, Val: v}
 }
 
 func (n *FNode) String() string {
@@ -348,7 +357,7 @@ func FilterLeaf(t *rapid.T, ts *TypeSpec, vals map[string]any, label string) *FN
 		v = RelIDs(t, r, label+"-rnd", 4, true).([]string)
 	}
 
-	return &FNode{Op: op, Field: r.FromName, Val: v}
+	return &FNode{Op: op, Field: r.FromName, Val: v, NilEmpty: rapid.Bool().Draw(t, label+"-nilempty")}
 }
 
 // FilterTree draws a well-typed filter tree.
